@@ -202,6 +202,43 @@ func sectionPrimitives() {
 	expect("tag/$4", marshal("tag$", tagged2{X: 0x5a}, w), cell.New(cat(rb.UintBits(6, 4), rb.UintBits(0x5a, 8)), false), w)
 	expect("tag/#4", marshal("tag#a", tagged3{X: 0x5a}, w), cell.New(cat(rb.UintBits(10, 4), rb.UintBits(0x5a, 8)), false), w)
 	R.EvalN(3, "tags")
+	// hand-written enumerations: the constructor tags as written in block.tlb
+	//   acc_state_uninit$00 acc_state_frozen$01 acc_state_active$10 acc_state_nonexist$11 = AccountStatus
+	//   acst_unchanged$0 acst_frozen$10 acst_deleted$11 = AccStatusChange
+	//   cskip_no_state$00 cskip_bad_state$01 cskip_no_gas$10 cskip_suspended$110 = ComputeSkipReason
+	enum := func(name string, v any, bitsStr string) {
+		want := make([]bool, len(bitsStr))
+		for i, ch := range bitsStr {
+			want[i] = ch == '1'
+		}
+		wit := map[string]any{"type": name, "value": fmt.Sprint(v), "tag": bitsStr}
+		R.Eval("enum/" + name + "/" + fmt.Sprint(v))
+		c := marshal(name, v, wit)
+		if !expect("enum-tag/"+name, c, cell.New(want, false), wit) || c == nil {
+			return
+		}
+		// and a schema-conformant cell decodes to that constructor
+		rc, err := bridge.ToTongoBuilt(cell.New(want, false))
+		if err != nil {
+			return
+		}
+		out := reflect.New(reflect.TypeOf(v))
+		if p := mon.Guard(func() { err = tlb.Unmarshal(rc, out.Interface()) }); p != nil || err != nil || fmt.Sprint(out.Elem().Interface()) != fmt.Sprint(v) {
+			wit["decoded"], wit["err"] = fmt.Sprint(out.Elem().Interface()), fmt.Sprint(err, p)
+			R.Violation("enum-decode-mismatch@"+name, wit)
+		}
+	}
+	enum("tlb.AccountStatus", tlb.AccountUninit, "00")
+	enum("tlb.AccountStatus", tlb.AccountFrozen, "01")
+	enum("tlb.AccountStatus", tlb.AccountActive, "10")
+	enum("tlb.AccountStatus", tlb.AccountNone, "11")
+	enum("tlb.AccStatusChange", tlb.AccStatusChangeUnchanged, "0")
+	enum("tlb.AccStatusChange", tlb.AccStatusChangeFrozen, "10")
+	enum("tlb.AccStatusChange", tlb.AccStatusChangeDeleted, "11")
+	enum("tlb.ComputeSkipReason", tlb.ComputeSkipReasonNoState, "00")
+	enum("tlb.ComputeSkipReason", tlb.ComputeSkipReasonBadState, "01")
+	enum("tlb.ComputeSkipReason", tlb.ComputeSkipReasonNoGas, "10")
+	enum("tlb.ComputeSkipReason", tlb.ComputeSkipSuspended, "110")
 	// every registry struct that starts with a tagged Magic: the encoding starts with exactly those bits
 	for _, e := range reg.Types() {
 		if e.Type.Kind() != reflect.Struct || e.Type.NumField() == 0 || e.Type.Field(0).Type != reflect.TypeOf(tlb.Magic(0)) {
@@ -740,6 +777,127 @@ func sectionStructures() {
 	}
 }
 
+// ---------------------------------------------------------------- VM stack (hand-written codec)
+
+// vm_stk_null#00 | vm_stk_tinyint#01 value:int64 | vm_stk_int#0201_ value:int257 | vm_stk_nan#02ff
+// vm_stk_cell#03 cell:^Cell | vm_stk_slice#04 _:VmCellSlice | vm_stk_builder#05 cell:^Cell
+// _ cell:^Cell st_bits:(## 10) end_bits:(## 10) st_ref:(#<= 4) end_ref:(#<= 4) = VmCellSlice
+// vm_stack#_ depth:(## 24) stack:(VmStackList depth)
+// vm_stk_cons#_ {n:#} rest:^(VmStackList n) tos:VmStackValue = VmStackList (n + 1); vm_stk_nil#_ = VmStackList 0
+type vmVal struct {
+	kind int // 0 null 1 tinyint 2 int 3 nan 4 cell 5 slice 6 builder
+	i64  int64
+	big  *big.Int
+	c    *cell.Cell
+}
+
+func (v vmVal) ref() ([]bool, []*cell.Cell) {
+	switch v.kind {
+	case 0:
+		return rb.UintBits(0x00, 8), nil
+	case 1:
+		return cat(rb.UintBits(0x01, 8), rb.IntBits(v.i64, 64)), nil
+	case 2:
+		return cat(rb.UintBits(0x0201>>1, 15), rb.BigBits(v.big, 257)), nil
+	case 3:
+		return rb.UintBits(0x02ff, 16), nil
+	case 4:
+		return rb.UintBits(0x03, 8), []*cell.Cell{v.c}
+	case 5:
+		return cat(rb.UintBits(0x04, 8), rb.UintBits(0, 10), rb.UintBits(uint64(len(v.c.Bits)), 10), rb.UintBits(0, 3), rb.UintBits(uint64(len(v.c.Refs)), 3)), []*cell.Cell{v.c}
+	default:
+		return rb.UintBits(0x05, 8), []*cell.Cell{v.c}
+	}
+}
+
+func (v vmVal) tongo() (tlb.VmStackValue, error) {
+	switch v.kind {
+	case 0:
+		return tlb.VmStackValue{SumType: "VmStkNull"}, nil
+	case 1:
+		return tlb.VmStackValue{SumType: "VmStkTinyInt", VmStkTinyInt: v.i64}, nil
+	case 2:
+		return tlb.VmStackValue{SumType: "VmStkInt", VmStkInt: tlb.Int257(*v.big)}, nil
+	case 3:
+		return tlb.VmStackValue{SumType: "VmStkNan"}, nil
+	case 4:
+		return tlb.VmStackValue{SumType: "VmStkCell", VmStkCell: tlb.Ref[boc.Cell]{Value: tongoCell(v.c)}}, nil
+	case 5:
+		tc := tongoCell(v.c)
+		return tlb.CellToVmCellSlice(&tc)
+	default:
+		return tlb.VmStackValue{SumType: "VmStkBuilder", VmStkBuilder: tlb.Ref[boc.Cell]{Value: tongoCell(v.c)}}, nil
+	}
+}
+
+func genVmVal(rng *mon.Rng) vmVal {
+	v := vmVal{kind: rng.Intn(7)}
+	switch v.kind {
+	case 1:
+		v.i64 = mon.Pick(rng, []int64{0, 1, -1, 1<<63 - 1, -1 << 63, int64(rng.Uint64())})
+	case 2:
+		one := big.NewInt(1)
+		v.big = mon.Pick(rng, []*big.Int{big.NewInt(0), big.NewInt(-1), new(big.Int).Neg(new(big.Int).Lsh(one, 256)),
+			new(big.Int).Sub(new(big.Int).Lsh(one, 256), one), rng.BigBits(256), new(big.Int).Neg(rng.BigBits(255))})
+	case 4, 5, 6:
+		v.c = genCell(rng, 1)
+	}
+	return v
+}
+
+func sectionVmStack() {
+	n := R.N(400, 10000)
+	for k := 0; k < n; k++ {
+		rng := R.Rng("vm", k)
+		// single values
+		v := genVmVal(rng)
+		tv, err := v.tongo()
+		if err != nil {
+			continue
+		}
+		bits, refs := v.ref()
+		wit := map[string]any{"case": k, "kind": v.kind}
+		R.Eval(fmt.Sprintf("vmvalue/%d/%d", v.kind, k))
+		R.Seen("vm_value_kinds", fmt.Sprint(v.kind))
+		expect("VmStackValue", marshal("VmStackValue", tv, wit), cell.New(bits, false, refs...), wit)
+		// stacks: the first list entry is the top of the stack (outermost cons)
+		depth := rng.Intn(6)
+		var vals []vmVal
+		var st tlb.VmStack
+		ok := true
+		for i := 0; i < depth; i++ {
+			x := genVmVal(rng)
+			tx, err := x.tongo()
+			if err != nil {
+				ok = false
+				break
+			}
+			vals = append(vals, x)
+			st = append(st, tx)
+		}
+		if !ok {
+			continue
+		}
+		var list func(i int) *cell.Cell // VmStackList (depth-i) holding vals[i:]
+		list = func(i int) *cell.Cell {
+			if i == len(vals) {
+				return cell.New(nil, false)
+			}
+			b, r := vals[i].ref()
+			return cell.New(b, false, append([]*cell.Cell{list(i + 1)}, r...)...)
+		}
+		var want *cell.Cell
+		if depth == 0 {
+			want = cell.New(rb.UintBits(0, 24), false)
+		} else {
+			b, r := vals[0].ref()
+			want = cell.New(cat(rb.UintBits(uint64(depth), 24), b), false, append([]*cell.Cell{list(1)}, r...)...)
+		}
+		R.Eval(fmt.Sprintf("vmstack/%d/%d", depth, k))
+		expect("VmStack", marshal("VmStack", st, map[string]any{"case": k, "depth": depth}), want, map[string]any{"case": k, "depth": depth})
+	}
+}
+
 // ---------------------------------------------------------------- (3) real data
 
 // unique reports whether re-encoding the decoded value is determined by the
@@ -868,6 +1026,7 @@ func main() {
 	sectionPrimitives()
 	sectionCombinators()
 	sectionStructures()
+	sectionVmStack()
 	sectionReal()
 	R.Sample(map[string]any{"kind": "Message", "example": "int_msg_info$0 + addr_std with anycast + init as ^StateInit + inline body: bits and refs equal the reference transcription"})
 	os.Exit(R.Finish())
